@@ -164,6 +164,12 @@ pub fn eval_bytes(bytes: &[u8], st: &mut Stats) -> Vec<Fail> {
         Ok(Err(_)) => st.bump("rejected"),
         Ok(Ok(node)) => {
             st.bump("accepted");
+            // one byte order mark is part of the encoding; a second U+FEFF is a character in front of the root
+            for bom in [&[0xEFu8, 0xBB, 0xBF][..], &[0xFF, 0xFE][..], &[0xFE, 0xFF][..]] {
+                if bytes.len() >= 2 * bom.len() && bytes.starts_with(bom) && bytes[bom.len()..].starts_with(bom) {
+                    fails.push(Fail::new("accepted-ill-formed|parse_bytes|toplevel-text", format!("{:?}: a second byte order mark (U+FEFF before the root) is accepted", bytes)));
+                }
+            }
             sound(&xot, node, true, &format!("{:?}", bytes), &mut fails);
         }
     }
@@ -411,6 +417,25 @@ fn byte_cases(tier: Tier) -> Vec<Vec<u8>> {
             out.push(v);
         }
     }
+    // a doubled byte order mark, with and without a declaration
+    for bom in [vec![0xEFu8, 0xBB, 0xBF], vec![0xFF, 0xFE], vec![0xFE, 0xFF]] {
+        for text in ["<a/>", "<?xml version=\"1.0\"?><a/>"] {
+            let mut v = bom.clone();
+            v.extend_from_slice(&bom);
+            if bom.len() == 3 {
+                v.extend_from_slice(text.as_bytes());
+            } else {
+                for u in text.encode_utf16() {
+                    if bom[0] == 0xFF {
+                        v.extend_from_slice(&u.to_le_bytes());
+                    } else {
+                        v.extend_from_slice(&u.to_be_bytes());
+                    }
+                }
+            }
+            out.push(v);
+        }
+    }
     let _ = tier;
     out
 }
@@ -541,7 +566,7 @@ pub fn run(tier: Tier) -> i32 {
             "<a".into(), "<p:a".into(), "<xml:a".into(), ">".into(), "/>".into(), "</a>".into(), "</p:a>".into(), "</xml:a>".into(),
             " xmlns:p=''".into(), " xmlns:p='X'".into(), " xmlns:xml='X'".into(), format!(" xmlns:xml='{}'", XMLNS), " xmlns:xmlns='X'".into(),
             format!(" xmlns:p='{}'", XMLNS), format!(" xmlns='{}'", XMLNS), " xmlns:p='http://www.w3.org/2000/xmlns/'".into(),
-            " p:k='1'".into(), " xml:k='1'".into(), " xmlns:k='1'".into(), "<?xml d?>".into(), "<?XML d?>".into(), "<?xml?>".into(), "<?xml\td?>".into(), "<?xml-x d?>".into(), "t".into(),
+            " p:k='1'".into(), " p:xmlns='v'".into(), " xml:k='1'".into(), " xmlns:k='1'".into(), "<?xml d?>".into(), "<?XML d?>".into(), "<?xml?>".into(), "<?xml\td?>".into(), "<?xml-x d?>".into(), "t".into(),
         ];
         let refs: Vec<&str> = menu.iter().map(|s| s.as_str()).collect();
         let fl = tier.pick(4, 5);
@@ -565,7 +590,7 @@ pub fn run(tier: Tier) -> i32 {
         "evaluations": stats.evals,
         "distinct_nontrivial": total,
         "samples": samples,
-        "rule": format!("(a) every string of length <= {} over 18 markup symbols; (b) every sequence of <= {} fragments from a 39-item token menu (tags with synonymous prefixes, duplicate attributes / declarations, references incl. &#0; &#xD800; &#+65;, comments, PIs, CDATA, ]]>, DOCTYPEs, XML declarations 1.0 / 1.1); (c) every single-character deletion / duplication / replacement / insertion / truncation and 13 structural edits (incl. every end tag rewritten under another prefix / without prefix) of the default spellings of the C02 documents and of their spellings with one other prefix choice (thorough: of all their one-deviation spellings); (d) every byte string of length <= {} and 8 BOMs x 40 encoding labels x 3 bodies; (f) every sequence of <= {} fragments from a 25-item menu around the reserved names (xml / xmlns prefixes, the XML and xmlns namespaces, xmlns:p='', processing instructions called xml); (e) every code point 0..=0x110000 as a hexadecimal character reference in text, and decimal / hexadecimal / zero-padded references to the code points within 2 of every boundary of the XML Char production in text, attribute values and namespace URIs; each to parse and parse_fragment (text) / parse_bytes; oracle: no panic; texts the reference recogniser XmlRead classifies ill-formed for a reason in the property's catalogue are rejected; whatever is accepted equals the reference reader's tree (when it has one), passes validate_well_formed_document, has unique attributes / declarations, serialises, and reparses equal; distinct = distinct (entry point, resulting tree or error variant)", l, tl, bl, tier.pick(4, 5)),
+        "rule": format!("(a) every string of length <= {} over 18 markup symbols; (b) every sequence of <= {} fragments from a 39-item token menu (tags with synonymous prefixes, duplicate attributes / declarations, references incl. &#0; &#xD800; &#+65;, comments, PIs, CDATA, ]]>, DOCTYPEs, XML declarations 1.0 / 1.1); (c) every single-character deletion / duplication / replacement / insertion / truncation and 13 structural edits (incl. every end tag rewritten under another prefix / without prefix) of the default spellings of the C02 documents and of their spellings with one other prefix choice (thorough: of all their one-deviation spellings); (d) every byte string of length <= {} and 8 BOMs x 40 encoding labels x 3 bodies; (f) every sequence of <= {} fragments from a 26-item menu around the reserved names (xml / xmlns prefixes, the XML and xmlns namespaces, xmlns:p='', processing instructions called xml); (e) every code point 0..=0x110000 as a hexadecimal character reference in text, and decimal / hexadecimal / zero-padded references to the code points within 2 of every boundary of the XML Char production in text, attribute values and namespace URIs; each to parse and parse_fragment (text) / parse_bytes; oracle: no panic; texts the reference recogniser XmlRead classifies ill-formed for a reason in the property's catalogue are rejected; whatever is accepted equals the reference reader's tree (when it has one), passes validate_well_formed_document, has unique attributes / declarations, serialises, and reparses equal; distinct = distinct (entry point, resulting tree or error variant)", l, tl, bl, tier.pick(4, 5)),
     });
     ctx.finish(stats, cov, vec!["XmlRead answers Unknown for anything it does not positively classify; only IllFormed(reason in catalogue) creates an obligation".into(), "a process abort (stack overflow, allocation failure) would surface as a machinery error of the driver, never as a pass".into()])
 }
